@@ -378,6 +378,10 @@ def canon_item(base, k):
             return base[1][k]
     if base[0] == "attr" and base[2] == "T" and isinstance(k, int):
         return canon_col(base[1], ("const", k))
+    # a, b = map(f, (p, q)): the k-th result is f(k-th item)   (one iterable of known items)
+    if base[0] == "call" and base[1] == G("map") and len(base[2]) == 2 and not base[3] and isinstance(k, int) and base[2][1][0] in ("tuple", "list") \
+            and not any(x[0] == "star" for x in base[2][1][1]) and k < len(base[2][1][1]):
+        return ("call", base[2][0], (base[2][1][1][k],), ())
     # a, b = {..}.values() / .keys() / .items() of a dict display
     if base[0] == "call" and base[1][0] == "attr" and base[1][1][0] == "dict" and not base[2] and isinstance(k, int) and k < len(base[1][1][1]):
         kv = base[1][1][1][k]
@@ -887,11 +891,73 @@ class TermBuilder:
         lp = loops[-1]
         return ("counter", ident, self.def_term(other), inc[1], f"{lp.lineno}")
 
+    def _built_dict(self, ident, d, at):
+        """``name = {}`` filled by ONE store ``name[key] = value`` inside ONE for loop (no other change of the dict) and read after that loop
+        is the comprehension ``{key: value for target in iter if conds}``."""
+        v = d.value
+        empty = (isinstance(v, ast.Dict) and not v.keys) or (isinstance(v, ast.Call) and isinstance(v.func, ast.Name) and v.func.id == "dict" and not v.args and not v.keywords)
+        if not empty or not isinstance(at, ast.AST) or d.stmt is None or not isinstance(d.stmt, ast.Assign) \
+                or len(d.stmt.targets) != 1 or not isinstance(d.stmt.targets[0], ast.Name):
+            return None
+        key = ("builtdict", d.idx)
+        if key not in self.memo:
+            self.memo[key] = None
+            stores = []
+            ok = True
+            own_loops = self.cfg.enclosing_loops(d.stmt)
+            for s_ in self.cfg.all_stmts():
+                for n in _stmt_own_walk(s_):
+                    if isinstance(n, ast.Subscript) and isinstance(n.value, ast.Name) and n.value.id == ident and not isinstance(n.ctx, ast.Load):
+                        if [x.idx for x in self.rd.reaching(ident, s_) if x.kind != "del"] != [d.idx]:
+                            continue
+                        if isinstance(s_, ast.Assign) and len(s_.targets) == 1 and s_.targets[0] is n and [l for l in self.cfg.enclosing_loops(s_) if l not in own_loops]:
+                            stores.append(s_)
+                        else:
+                            ok = False
+                    if isinstance(n, ast.Attribute) and isinstance(n.value, ast.Name) and n.value.id == ident and n.attr in ("update", "pop", "setdefault", "clear", "popitem"):
+                        if [x.idx for x in self.rd.reaching(ident, s_) if x.kind != "del"] == [d.idx]:
+                            ok = False
+            if ok and len(stores) == 1:
+                st = stores[0]
+                loops = [l for l in self.cfg.enclosing_loops(st) if l not in own_loops]
+                if len(loops) == 1 and isinstance(loops[0], ast.For) and not loops[0].orelse \
+                        and not any(isinstance(n, (ast.Break, ast.Return)) for n in ast.walk(loops[0])):
+                    self.memo[key] = (loops[0], st)
+        hit = self.memo[key]
+        if hit is None:
+            return None
+        loop, st = hit
+        if any(n is at for n in ast.walk(loop)):
+            return None
+        tkey = ("builtdictterm", d.idx)
+        if tkey not in self.memo:
+            from .guards import literals as _lits
+            conds = []
+            inside = False
+            for parent, which in self.cfg.enclosing(st):
+                if parent is loop:
+                    inside = True
+                    continue
+                if not inside:
+                    continue
+                if isinstance(parent, ast.If):
+                    conds += _lits(self.term(parent.test, parent), which == "body")
+                else:
+                    self.memo[tkey] = None
+                    return None
+            lid = f"{loop.lineno}:{loop.col_offset}"
+            self.memo[tkey] = ("comp", "dict", ("tuple", (self.term(st.targets[0].slice, st), self.term(st.value, st))), lid, self.term(loop.iter, loop), tuple(conds))
+        return self.memo[tkey]
+
     def def_term(self, d):
         if d.kind == "assign" and isinstance(d.value, (ast.List, ast.Call)):
             bt = self._built_list(d.name, d, getattr(self, "_use_site", None))
             if bt is not None:
                 return bt
+        if d.kind == "assign" and isinstance(d.value, (ast.Dict, ast.Call)):
+            bd = self._built_dict(d.name, d, getattr(self, "_use_site", None))
+            if bd is not None:
+                return bd
         key = ("def", d.idx)
         if key in self.memo:
             return self.memo[key]
@@ -1124,6 +1190,9 @@ class TermBuilder:
                         items.append(("star", s))
                 else:
                     items.append(T(x))
+            if tag == "list" and items and items[0][0] == "star" and not any(y[0] == "star" for y in items[1:]) and len(items) >= 2:
+                # [*a, b, c] is a + [b, c] (for a list a; a plain iterable gives the same elements, which is all the rules compare)
+                return ("bin", "+", items[0][1], ("list", tuple(items[1:])))
             return (tag, tuple(items))
         if isinstance(e, ast.Dict):
             items = []
@@ -1300,9 +1369,18 @@ class TermBuilder:
                 return True
         return False
 
+    _OPERATOR_CMP = {"operator.le": "<=", "operator.lt": "<", "operator.ge": ">=", "operator.gt": ">", "operator.eq": "==", "operator.ne": "!=",
+                     "numpy.less_equal": "<=", "numpy.less": "<", "numpy.greater_equal": ">=", "numpy.greater": ">"}
+
     def _finish_call(self, t):
         if t[0] != "call":
             return t
+        # a callable chosen by a test and applied: (f if c else g)(args) is f(args) if c else g(args)
+        if t[1][0] == "ifexp":
+            return ("ifexp", t[1][1], self._finish_call(("call", t[1][2], t[2], t[3])), self._finish_call(("call", t[1][3], t[2], t[3])))
+        # operator.le(a, b) is a <= b
+        if t[1][0] == "global" and t[1][1] in self._OPERATOR_CMP and t[1][1].startswith("operator.") and len(t[2]) == 2 and not t[3]:
+            return self.cmp(self._OPERATOR_CMP[t[1][1]], t[2][0], t[2][1])
         callee, recv = self.resolve_callee(t[1])
         if callee is not None and t[3] and not isinstance(callee.node, ast.Lambda) and not any(a[0] == "star" for a in t[2]) and not any(k == "**" for k, _ in t[3]):
             # a call of a package function: keywords that name positional formals are put at their positions (f(a, y=b) is f(a, b))
